@@ -718,3 +718,70 @@ Proof.
   induction ins as [|a r IH]; intros prev; simpl; [reflexivity|].
   rewrite !app_length, map_length, IH. reflexivity.
 Qed.
+
+(* ---- added: no data set is invented — every label of the merged dictionary stems from an input's data set ---- *)
+Definition keys (d : dict) : list label := map fst d.
+Definition stems (d : dat) (l : label) : Prop :=
+  let '(n, _, t, c) := l in n = dname d /\ t = dtype d /\ c = dcell d.
+
+Lemma lookup_some_in_keys : forall l d v, lookup l d = Some v -> In l (keys d).
+Proof.
+  induction d as [|[k w] r IH]; intros v H; simpl in *; [discriminate|].
+  destruct (label_eqb l k) eqn:E.
+  - apply label_eqb_eq in E. left. symmetry. exact E.
+  - right. eapply IH. exact H.
+Qed.
+
+Lemma keys_set : forall l v d, keys (set l v d) = keys d.
+Proof.
+  induction d as [|[k w] r IH]; simpl; [reflexivity|].
+  destruct (label_eqb l k); simpl; [reflexivity | rewrite IH; reflexivity].
+Qed.
+
+Lemma keys_data_step : forall nv nc st ind d l,
+  In l (keys (md (data_step nv nc st ind d))) -> In l (keys (md st)) \/ stems d l.
+Proof.
+  intros nv nc st ind d l. unfold data_step.
+  set (lbl := match lookup (lbl0 d) (md st) with
+              | Some v => if all_none (slice v (if dcell d then ccount st else vcount st) (length (dvals d)))
+                          then lbl0 d else (dname d, Some ind, dtype d, dcell d)
+              | None => lbl0 d end).
+  assert (Hst : stems d lbl).
+  { unfold lbl, lbl0. destruct (lookup _ (md st)); [destruct (all_none _)|]; simpl; auto. }
+  set (d1 := match lookup lbl (md st) with
+             | Some _ => md st
+             | None => md st ++ [(lbl, repeat None (if dcell d then nc else nv))] end).
+  assert (Hd1 : forall x, In x (keys d1) -> In x (keys (md st)) \/ x = lbl).
+  { intros x Hx. unfold d1 in Hx. destruct (lookup lbl (md st)); [left; exact Hx|].
+    unfold keys in Hx. rewrite map_app in Hx. apply in_app_or in Hx as [Hx|[Hx|[]]]; [left; exact Hx | right; symmetry; exact Hx]. }
+  destruct (lookup lbl d1); simpl; [|intros H; left; exact H].
+  rewrite keys_set. intros H. destruct (Hd1 _ H) as [H1|H1]; [left; exact H1 | right; subst l; exact Hst].
+Qed.
+
+Lemma keys_data_steps : forall nv nc L st ind l,
+  In l (keys (md (data_steps nv nc st ind L))) -> In l (keys (md st)) \/ exists d, In d L /\ stems d l.
+Proof.
+  induction L as [|d r IH]; intros st ind l H; simpl in H; [left; exact H|].
+  destruct (IH _ _ _ H) as [H1|[d' [Hin Hs]]].
+  - destruct (keys_data_step _ _ _ _ _ _ H1) as [H2|H2]; [left; exact H2 | right; exists d; split; [left; reflexivity | exact H2]].
+  - right. exists d'. split; [right; exact Hin | exact Hs].
+Qed.
+
+Lemma keys_fold : forall nv nc ins st l,
+  In l (keys (md (fold_left (input_step nv nc) ins st))) ->
+  In l (keys (md st)) \/ exists i d, In i ins /\ In d (ds i) /\ stems d l.
+Proof.
+  induction ins as [|a r IH]; intros st l H; simpl in H; [left; exact H|].
+  destruct (IH _ _ H) as [H1|[i [d [Hi [Hd Hs]]]]].
+  - unfold input_step in H1. simpl in H1.
+    destruct (keys_data_steps _ _ _ _ _ _ H1) as [H2|[d [Hd Hs]]]; [left; exact H2|].
+    right. exists a, d. repeat split; [left; reflexivity | exact Hd | exact Hs].
+  - right. exists i, d. repeat split; [right; exact Hi | exact Hd | exact Hs].
+Qed.
+
+Lemma merged_data_stems : forall ins l v,
+  lookup l (merge_data ins) = Some v -> exists i d, In i ins /\ In d (ds i) /\ stems d l.
+Proof.
+  intros ins l v H. apply lookup_some_in_keys in H. unfold merge_data in H.
+  destruct (keys_fold _ _ _ _ _ H) as [[]|H1]. exact H1.
+Qed.
